@@ -157,55 +157,64 @@ Definition apply_diff (prev : list N) (d : list N * list N) : list N :=
 Definition hstate (model : list string) : list N := sortn (map hs model).
 Definition same_state (model : list string) (observed : list N) : bool := list_eqb N.eqb (hstate model) observed.
 
+(* what the harness could read: [wb_state] the builder states (white-box group verif_c20wb), [wb_runner] the compiled
+   record (white-box group verif_c09wb).  A harness built without a group (the hook no longer compiles against a
+   modified tree) sends no such entries: the comparison then leaves them out — without the states it is the outcome
+   of every call that is compared *)
+Record wbox : Type := mkWB { wb_state : bool; wb_runner : bool }.
+Definition wb_all : wbox := mkWB true true.
+Definition same_seen (wb : wbox) (state runner : list string) (observed : list N) : bool :=
+  negb (wb_state wb) || same_state (state ++ (if wb_runner wb then runner else [])) observed.
+
 (* result of replaying a case: None = a call's outcome or the state after it differed;
    [prev]: the implementation's state before the call, as reconstructed so far *)
-Fixpoint replay_g (v : ver) (g : gstate) (prev : list N) (cs : list (gcall * seen)) (rs : issued) : option bool :=
+Fixpoint replay_g (wb : wbox) (v : ver) (g : gstate) (prev : list N) (cs : list (gcall * seen)) (rs : issued) : option bool :=
   match cs with
   | [] => Some (all_intact g rs)
   | (c, (b, d)) :: rest =>
     let '(g', o) := gstep v g c in
     let st := apply_diff prev d in
-    if matches o b && same_state (snap_graph g' ++ snap_out o) st then replay_g v g' st rest (note g' o rs) else None
+    if matches o b && same_seen wb (snap_graph g') (snap_out o) st then replay_g wb v g' st rest (note g' o rs) else None
   end.
 
-Fixpoint replay_c (v : ver) (c : cstate) (prev : list N) (cs : list (ccall * seen)) (rs : issued) : option bool :=
+Fixpoint replay_c (wb : wbox) (v : ver) (c : cstate) (prev : list N) (cs : list (ccall * seen)) (rs : issued) : option bool :=
   match cs with
   | [] => Some (all_intact (c_g c) rs)
   | (call, (b, d)) :: rest =>
     let '(c', o) := cstep v c call in
     let st := apply_diff prev d in
-    if matches o b && same_state (snap_chain c' ++ snap_out o) st then replay_c v c' st rest (note (c_g c') o rs) else None
+    if matches o b && same_seen wb (snap_chain c') (snap_out o) st then replay_c wb v c' st rest (note (c_g c') o rs) else None
   end.
 
 (* first pair of orders among the candidates whose outcome and resulting state match *)
-Fixpoint pick_order (v : ver) (w : wstate) (o : copt) (b : obs) (st : list N) (cands : list (list string * list string))
+Fixpoint pick_order (wb : wbox) (v : ver) (w : wstate) (o : copt) (b : obs) (st : list N) (cands : list (list string * list string))
   : option (wstate * outcome) :=
   match cands with
   | [] => None
   | (ord, sord) :: rest =>
     let '(w', out) := w_compile v w o ord sord in
-    if matches out b && same_state (snap_wf w' ++ snap_out out) st then Some (w', out) else pick_order v w o b st rest
+    if matches out b && same_seen wb (snap_wf w') (snap_out out) st then Some (w', out) else pick_order wb v w o b st rest
   end.
 
 (* [ord] / [sord] of an observed WCompile: the nodes whose deferred inputs / static values that
    Compile consumed (sorted); the node it failed on, if any, is not known: every node is
    tried next, in either loop *)
-Fixpoint replay_w (v : ver) (w : wstate) (prev : list N) (cs : list (wcall * seen)) (rs : issued) : option bool :=
+Fixpoint replay_w (wb : wbox) (v : ver) (w : wstate) (prev : list N) (cs : list (wcall * seen)) (rs : issued) : option bool :=
   match cs with
   | [] => Some (all_intact (w_g w) rs)
   | (call, (b, d)) :: rest =>
     let st := apply_diff prev d in
     match call with
     | WCompile o ord sord =>
-      match pick_order v w o b st
+      match pick_order wb v w o b st
               ((ord, sord) :: map (fun kn => (ord ++ [fst kn], sord)) (w_nodes w)
                            ++ map (fun kn => (ord, sord ++ [fst kn])) (w_nodes w)) with
-      | Some (w', out) => replay_w v w' st rest (note (w_g w') out rs)
+      | Some (w', out) => replay_w wb v w' st rest (note (w_g w') out rs)
       | None => None
       end
     | _ =>
       let '(w', o) := wstep v w call in
-      if matches o b && same_state (snap_wf w' ++ snap_out o) st then replay_w v w' st rest (note (w_g w') o rs) else None
+      if matches o b && same_seen wb (snap_wf w') (snap_out o) st then replay_w wb v w' st rest (note (w_g w') o rs) else None
     end
   end.
 
@@ -216,26 +225,28 @@ Fixpoint replay_w (v : ver) (w : wstate) (prev : list N) (cs : list (wcall * see
 Local Open Scope string_scope.
 Definition snap_nested (s : nstate) : list string :=
   snap_graph (ns_out s)
-  ++ flat_map (fun ig => map (fun l => "I" +++ fst ig +++ "/" +++ l) (snap_graph (snd ig))) (ns_inn s).
+  ++ flat_map (fun ig => map (fun l => "I" +++ fst ig +++ "/" +++ l)
+                              (match snd ig with IG g => snap_graph g | IC c => snap_chain c end)) (ns_inn s).
 Local Open Scope list_scope.
 
 Definition is_outer_compile (c : ncall) : bool := match c with NOuter (GCompile _) => true | _ => false end.
 
-Fixpoint replay_n (s : nstate) (prev : list N) (cs : list (ncall * seen)) (rs : issued) : option bool :=
+Fixpoint replay_n (wb : wbox) (s : nstate) (prev : list N) (cs : list (ncall * seen)) (rs : issued) : option bool :=
   match cs with
   | [] => Some (all_intact (ns_out s) rs)
   | (c, (b, d)) :: rest =>
     let '(s', o) := nstep s c in
     let st := apply_diff prev d in
-    if matches o b && same_state (snap_nested s' ++ snap_out o) st
-    then replay_n s' st rest (if is_outer_compile c then note (ns_out s') o rs else rs) else None
+    if matches o b && same_seen wb (snap_nested s') (snap_out o) st
+    then replay_n wb s' st rest (if is_outer_compile c then note (ns_out s') o rs else rs) else None
   end.
 
 Inductive ccase : Type :=
 | CaseN (has_state : bool) (calls : list (ncall * seen)) (intact : bool)
 | CaseG (has_state : bool) (calls : list (gcall * seen)) (intact : bool)
 | CaseC (has_state : bool) (calls : list (ccall * seen)) (intact : bool)
-| CaseW (has_state : bool) (calls : list (wcall * seen)) (intact : bool).
+| CaseW (has_state : bool) (calls : list (wcall * seen)) (intact : bool)
+| Degraded (state runner : bool) (c : ccase).
 
 Definition verdict (r : option bool) (intact : bool) : bool :=
   match r with
@@ -243,12 +254,17 @@ Definition verdict (r : option bool) (intact : bool) : bool :=
   | Some m => negb (Bool.eqb m intact)
   end.
 
-Definition bad (c : ccase) : bool :=
+Fixpoint bad_wb (wb : wbox) (c : ccase) : bool :=
   match c with
-  | CaseN st calls intact => verdict (replay_n (n_init st) (hstate (snap_nested (n_init st))) calls []) intact
-  | CaseG st calls intact => verdict (replay_g fixed (g_init CGraph st) (hstate (snap_graph (g_init CGraph st))) calls []) intact
-  | CaseC st calls intact => verdict (replay_c fixed (c_init st) (hstate (snap_chain (c_init st))) calls []) intact
-  | CaseW st calls intact => verdict (replay_w fixed (w_init st) (hstate (snap_wf (w_init st))) calls []) intact
+  | CaseN st calls intact => verdict (replay_n wb (n_init st) (hstate (snap_nested (n_init st))) calls []) intact
+  | CaseG st calls intact => verdict (replay_g wb fixed (g_init CGraph st) (hstate (snap_graph (g_init CGraph st))) calls []) intact
+  | CaseC st calls intact => verdict (replay_c wb fixed (c_init st) (hstate (snap_chain (c_init st))) calls []) intact
+  | CaseW st calls intact =>
+    (* a Workflow Compile is replayed with the order read off the states: without them the case is not compared *)
+    wb_state wb && verdict (replay_w wb fixed (w_init st) (hstate (snap_wf (w_init st))) calls []) intact
+  | Degraded state runner c' => bad_wb (mkWB (wb_state wb && state) (wb_runner wb && runner)) c'
   end.
+
+Definition bad (c : ccase) : bool := bad_wb wb_all c.
 
 Definition mismatches (cs : list ccase) : list nat := mismatches_from bad 0 cs.
